@@ -293,8 +293,9 @@ def main(pid, tier='quick', seed=0, replay=None):
     ev = {'property_id': pid, 'tier': tier, 'seed': int(seed), 'level': level, 'coverage': coverage,
           'assumptions': GLOBAL_ASSUMPTIONS + list(getattr(prop, 'ASSUMPTIONS', [])),
           'wall_s': round(time.time() - t_start, 2), 'violations': len(violations)}
-    os.makedirs(os.path.join(VERIF, 'evidence'), exist_ok=True)
-    with open(os.path.join(VERIF, 'evidence', f'{pid}.json'), 'w') as fh:
+    evdir = os.environ.get('VERIF_EVIDENCE_DIR') or os.path.join(VERIF, 'evidence')
+    os.makedirs(evdir, exist_ok=True)
+    with open(os.path.join(evdir, f'{pid}.json'), 'w') as fh:
         json.dump(ev, fh, indent=1)
     for ln in lines:
         print(ln)
